@@ -348,3 +348,33 @@ theorem forms_render_congr {fs gs : List Form} (h : ∃ l, fs.Perm l ∧ All₂ 
   rw [pairwise_ne_inj hd ha hb hv]
 
 end XmppModel.Caps
+
+namespace XmppModel.Caps
+
+theorem all₂_eq_map {α β} {R : α → β → Prop} {f : α → β} {l : List α} {rs : List β}
+    (h : All₂ R l rs) (hf : ∀ a ∈ l, ∀ b, R a b → b = f a) : rs = l.map f := by
+  induction h with
+  | nil => rfl
+  | cons hab _ ih =>
+    simp only [List.map_cons]
+    rw [hf _ (by simp) _ hab, ih (fun a ha b => hf a (by simp [ha]) b)]
+
+/-- §5.1 determines the rendering of a field -/
+theorem fieldSpec_unique {fd : Field} {r : Bytes} (h : FieldSpec fd r) : r = renderField fd := by
+  obtain ⟨vals, hs, rfl⟩ := h
+  rw [sorted_perm_unique lexLe_trans lexLe_total hs.1 hs.2 (fun a b _ _ => lexLe_antisymm a b)]
+  rfl
+
+/-- … and of a form whose fields have pairwise distinct `var`s -/
+theorem formSpec_unique {F : Form} {r : Bytes} (wf : F.WF) (h : FormSpec F r) :
+    r = renderForm F := by
+  obtain ⟨fields, rs, hs, hrs, rfl⟩ := h
+  have hd : F.dataFields.Pairwise (fun a b => a.var ≠ b.var) := wf.1.filter _
+  have hf : fields = F.dataFields.mergeSort fieldLe :=
+    sorted_perm_unique fieldLe_trans fieldLe_total hs.1 hs.2
+      (fun a b ha hb h1 h2 => pairwise_ne_inj hd ha hb (lexLe_antisymm _ _ h1 h2))
+  subst hf
+  rw [all₂_eq_map hrs (fun a _ b hb => fieldSpec_unique hb)]
+  simp [renderForm, List.flatMap_def]
+
+end XmppModel.Caps
